@@ -48,7 +48,9 @@ type Entry struct {
 	Kind string // msg | event | state | spec
 	Type reflect.Type
 	// Via round-trips a State through a real modeling.Component checkpoint (state entries only).
-	Via func(state reflect.Value) (reflect.Value, error)
+	// prior, when valid, is the State the REBUILT component holds before LoadCheckpoint (a builder
+	// may seed it): loading must replace it, not merge into it.
+	Via func(state, prior reflect.Value) (reflect.Value, error)
 }
 
 // protocols lists the exported protocol variables; keyed by protocol name.
@@ -73,11 +75,11 @@ type compEntry struct {
 	dir   string
 	spec  reflect.Type
 	state reflect.Type
-	via   func(reflect.Value) (reflect.Value, error)
+	via   func(reflect.Value, reflect.Value) (reflect.Value, error)
 }
 
-func via[S, T any]() func(reflect.Value) (reflect.Value, error) {
-	return func(st reflect.Value) (reflect.Value, error) {
+func via[S, T any]() func(reflect.Value, reflect.Value) (reflect.Value, error) {
+	return func(st, prior reflect.Value) (reflect.Value, error) {
 		mk := func() *modeling.Component[S, T, modeling.None] {
 			var spec S
 			return modeling.NewBuilder[S, T, modeling.None]().
@@ -90,6 +92,9 @@ func via[S, T any]() func(reflect.Value) (reflect.Value, error) {
 			return reflect.Value{}, err
 		}
 		b := mk()
+		if prior.IsValid() {
+			b.State = prior.Interface().(T)
+		}
 		if err := b.LoadCheckpoint(&buf); err != nil {
 			return reflect.Value{}, err
 		}
